@@ -230,7 +230,10 @@ fn agg_case(tables: &Tables, si: usize, seq: &[u8]) -> (Vec<Failure>, bool) {
 
 const JOIN_DEF: &str = "CREATE TABLE u({ .b } => b TEXT, { .y } => y INT);";
 const JOINED: &str = "{\"b\":\"a\",\"y\":1}\n{\"b\":\"a\",\"y\":1}\n{\"b\":\"a\",\"y\":2}\n{\"b\":\"c\",\"y\":1}\n{\"b\":\"c\",\"y\":1}\n";
-const JOIN_STMTS: [&str; 5] = [
+const JOIN_STMTS: [&str; 8] = [
+    "SELECT DISTINCT input, y FROM t INNER JOIN u::'@' ON t.b = u.b",
+    "SELECT DISTINCT y, input FROM t OUTER JOIN u::'@' ON t.b = u.b",
+    "SELECT DISTINCT t.b, input, y FROM t INNER JOIN u::'@' ON t.b = u.b WHERE y > 0",
     "SELECT DISTINCT t.b, y FROM t INNER JOIN u::'@' ON t.b = u.b",
     "SELECT DISTINCT y FROM t OUTER JOIN u::'@' ON t.b = u.b",
     "SELECT DISTINCT t.b, COUNT(*) FROM t INNER JOIN u::'@' ON t.b = u.b GROUP BY t.b",
